@@ -175,4 +175,13 @@ def ocraStepR (q : Bytes) (t : Nat) (st : OcraSt) : OcraSt × List UInt8 :=
   let h := if st.ts ≠ 0 then Belt.hmacStepA (botpTimeToCtr t) h else h
   ({ st with ctr := ctr }, botpDT st.digit (Belt.hmacStepG h))
 
+/-- `botpOCRAStepV(otp, q, q_len, t, state)`: the counter advances only on success -/
+def ocraStepV (otp : List UInt8) (q : Bytes) (t : Nat) (st : OcraSt) : OcraSt × Bool :=
+  let r := ocraStepR q t st
+  if r.2 = otp then (r.1, true) else ({ r.1 with ctr := st.ctr }, false)
+
+/-- `botpTOTPStepV(otp, t, state)` -/
+def totpStepV (otp : List UInt8) (digit : Nat) (keySt : Belt.HmacSt) (t : Nat) : Bool :=
+  totpStepR digit keySt t = otp
+
 end Bee2V.C03
